@@ -218,7 +218,11 @@ def build_link_tree(P):
     labs -> <abs>/d/e, lq2 -> d/e (points two levels down), q/lup -> ../d."""
     os.makedirs(P + "/d/e/g")
     os.makedirs(P + "/q")
-    for f in ("/d/x", "/d/e/f", "/top"):
+    os.makedirs(P + "/d-x")
+    os.makedirs(P + "/dd")
+    os.makedirs(P + "/d/e-x")
+    os.makedirs(P + "2")          # a sibling of the tree root whose name extends the root's name ("p" -> "p2")
+    for f in ("/d/x", "/d/e/f", "/top", "/d-x/y", "/dd/y", "/d/e-x/y", "2/y"):
         with open(P + f, "w") as fh:
             fh.write("x\n")
     os.symlink("d", P + "/ld")
@@ -235,6 +239,8 @@ T_SPECS = [
     "ld/le/f", "labs/f", "lq2/f", "lq2/../x", "d/e/lf", "ld/le/lf", "d/le", "ld", "lq2", "d/e", "d/e/", "ld/", "d/e/g/..",
     "d/e/.", "d/new", "ld/le/new", "nodir/new", "nodir/../d/x", "d/e/g/../../x", ".", "", "d/..", "q/lup/e/f",
     "d/e/f/", "top/..",
+    # siblings whose names merely *extend* a base directory's name (string prefix, not a path prefix)
+    "d-x/y", "dd/y", "d/e-x/y", "d-x", "../p2/y", "d-x/new",
 ]
 CWDS = ["", "d", "d/e", "ld", "q", "lq2"]           # relative to P; "ld"/"lq2" are entered through the symlink
 PHYS_DEPTH = {"": 0, "d": 1, "d/e": 2, "ld": 1, "q": 1, "lq2": 2}
